@@ -1,0 +1,7 @@
+//go:build !verif
+
+// Package verifhook is an observation and fault-injection point for the external verification harness.
+// Without the verif build tag every hook is an empty function.
+package verifhook
+
+func At(point string, args ...any) {}
